@@ -8,7 +8,7 @@ from ..cfg import NORMAL, Node
 from ..core import Ctx
 from ..flow import ALL, find_path, names_in
 from ..model import AnalysisError, FunctionInfo, dotted, norm_text
-from .common import UNKNOWN, walk_all, judged_in_callers, resolve_value, concrete_eval, eval3, edge_target, explore, kwarg, reachable_from
+from .common import UNKNOWN, walk_all, facts_at, judged_in_callers, resolve_value, concrete_eval, eval3, edge_target, explore, kwarg, reachable_from
 
 EXPLANATION = (
     "Static analysis of the metadata mutators: (R1) sibling agreement of the three snapshot-removal sites (expire mutator, "
@@ -286,9 +286,62 @@ def r1(ctx: Ctx) -> None:
                 adds.append(n)
     app = adds
     ok = bool(adds)
+    # ... and it is re-added WHENEVER it is missing: the path condition of the add consists only of "there is a current snapshot"
+    # and "it is not among the kept ones" (a negated / weakened guard re-adds it when it is already there and drops it otherwise)
+    bad_guards = []
+    cur_like = {"current_snapshot_id"} | {t.id for n in ast.walk(ret.node) if isinstance(n, ast.Assign) and isinstance(n.value, ast.Attribute)
+                                          and n.value.attr == "current_snapshot_id" for t in n.targets if isinstance(t, ast.Name)}
+
+    def _is_cur_id(x: ast.AST) -> bool:
+        return (isinstance(x, ast.Attribute) and x.attr == "current_snapshot_id") or (isinstance(x, ast.Name) and x.id in cur_like)
+
+    def _missing(x: ast.AST) -> Optional[bool]:
+        # scenario: there IS a current snapshot and its id is NOT in the kept set
+        if isinstance(x, ast.Compare) and len(x.ops) == 1:
+            op, l_, r_ = x.ops[0], x.left, x.comparators[0]
+            if _is_cur_id(l_) and isinstance(r_, ast.Name) and r_.id in idsets and isinstance(op, (ast.In, ast.NotIn)):
+                return isinstance(op, ast.NotIn)
+            if _is_cur_id(l_) and isinstance(r_, ast.Constant) and r_.value is None and isinstance(op, (ast.Is, ast.IsNot)):
+                return isinstance(op, ast.IsNot)
+        return None
+
+    # the object looked up by the current id ("current = next(s for s in snapshots if s.snapshot_id == current_id)") exists
+    found_names = {t.id for n in ast.walk(ret.node) if isinstance(n, ast.Assign) and any(_is_cur_id(y) for y in ast.walk(n.value))
+                   and not isinstance(n.value, ast.Attribute) for t in n.targets if isinstance(t, ast.Name)}
+
+    def _scen(x: ast.AST) -> Optional[bool]:
+        v_ = _missing(x)
+        if v_ is not None:
+            return v_
+        if isinstance(x, ast.Compare) and len(x.ops) == 1 and isinstance(x.left, ast.Name) and x.left.id in found_names \
+                and isinstance(x.comparators[0], ast.Constant) and x.comparators[0].value is None and isinstance(x.ops[0], (ast.Is, ast.IsNot)):
+            return isinstance(x.ops[0], ast.IsNot)
+        if isinstance(x, ast.Name) and x.id in found_names:
+            return True
+        if isinstance(x, ast.Call) and dotted(x.func) == "any" and x.args and isinstance(x.args[0], (ast.GeneratorExp, ast.ListComp)):
+            el = x.args[0].elt
+            if isinstance(el, ast.Compare) and len(el.ops) == 1 and isinstance(el.ops[0], ast.Eq) and (
+                    _is_cur_id(el.left) or _is_cur_id(el.comparators[0])):
+                return True  # "a snapshot with the current id exists"
+        return None
+
+    def _edge_ok(s_: int, d_: int, l_: str) -> bool:
+        n_ = g.nodes[s_]
+        if n_.kind == "branch" and n_.ast is not None and l_ in ("true", "false"):
+            v_ = eval3(n_.ast, _scen)
+            if v_ is not None:
+                return l_ == ("true" if v_ else "false")
+        return True
+
+    if adds and rem:
+        w_ = find_path(g, g.entry, [r.id for r in rem], avoid=[a_.id for a_ in adds], labels=NORMAL, edge_ok=_edge_ok)
+        if w_ is not None:
+            bad_guards.append("a path on which the current snapshot exists and is missing from the kept set reaches the removal "
+                              "without re-adding it: " + " -> ".join(str(g.nodes[x].lineno) for x in w_ if g.nodes[x].kind == "branch"))
+    ok = ok and not bad_guards
     ctx.ob("C15.R1", ret, "retention: the current snapshot is re-added to the kept set", app[0] if app else None, ok and surv_ok,
-           f"the id set the surviving snapshots are filtered by ({sorted(idsets)}) receives metadata.current_snapshot_id",
-           text="retention-current")
+           f"the id set the surviving snapshots are filtered by ({sorted(idsets)}) receives metadata.current_snapshot_id"
+           + (f"; but only under {bad_guards[:3]}" if bad_guards else " whenever it is missing from it"), text="retention-current")
     dl = sites["delete_snapshot"]
     assert dl is not None
     g = ctx.cfg(dl)
